@@ -408,12 +408,21 @@ def register(props):
                       "half is FALSE under the boolean class predicate no_key_collision alone [C12_result_refuted: string keys "
                       "\"1\" and \"01\" under an int-keyed map; reproduced on the Go code], and with two keys the predicate does see "
                       "[C12_collision_refuted, D19]; underneath: C12_order_independent_partial, C12_schema_lookups_order_free; "
-                      "(3) with the decoded-default cache made explicit state, every result after any history equals the result on a "
-                      "fresh instance and the cache is a function of the schema alone [C12_oracles_pointwise, "
-                      "C12_history_free_partial, C12_state_is_function_of_schema]. Well-formedness is assumed on the first "
-                      "description only: perm_env/perm_schema preserve wf_schema [C12_wf_order_free, C12_order_independent_verdict]. "
-                      "Remaining partial: the unit-parsing caches are not modelled as state; argument preservation is observed on the "
-                      "implementation, not proved.",
+                      "(3) history freedom with ALL lazily filled caches as explicit state - the decoded property defaults AND the "
+                      "unit caches (compiled parser expression, sorted multipliers): for every history of calls (failing ones "
+                      "included), from every coherent cache, every result equals the pure function's, the cache stays coherent "
+                      "and nothing filled is overwritten [C12_history_free, for every function saying which cells a call touches: "
+                      "the lazy one of the code - exactly the cells of the operation's primitive uses, Schema/FootprintOps.v - and the "
+                      "eager one]; what a cell holds after any history is a function of its key, i.e. of the schema "
+                      "[C12_cache_cells_function_of_schema]; with the eager toucher the whole cache after any non-empty history is "
+                      "one table [C12_state_is_function_of_schema_all_caches]; the earlier default-cache-only forms are kept "
+                      "[C12_oracles_pointwise, C12_history_free_partial, C12_state_is_function_of_schema]. Well-formedness is "
+                      "assumed on the first description only: perm_env/perm_schema preserve wf_schema [C12_wf_order_free, "
+                      "C12_order_independent_verdict]. Remaining partial: the caches are keyed by CONTENT (a units definition, a "
+                      "default text), not by Go object identity - two nodes with equal definitions share a model cell, which is "
+                      "immaterial for results; within one call reads see the cache as it was when the call started (a cell filled "
+                      "earlier in the same call holds the value a miss computes, so the values agree); argument preservation is "
+                      "observed on the implementation, not proved.",
         "level_note": "Model = Schema/Ops.v; Schema/Perm.v (perm_val, perm_schema, has_key_collision); Proofs/C12ResultBase.v "
                       "(keys_distinct = kfree, kc). Tied to the code by the c12pure family (outcome class + the purity flags); "
                       "struct-mapped objects by the direct check only. The class predicate of D19 (has_key_collision, key TEXTS) "
